@@ -19,7 +19,7 @@ one() {
     if echo "$out" | grep -q '^VIOLATION'; then res="$res $c:CAUGHT"; elif [ $rc -ne 0 ]; then res="$res $c:rc$rc"; else res="$res $c:missed"; fi
   done
   TAG=$(echo "$W" | md5sum | cut -c1-10)
-  rm -rf /verif/out/alt/$TAG /verif/out/bin/vchk.$TAG /verif/out/bin/vchk-race.$TAG
+  rm -rf /verif/out/alt/$TAG /verif/out/bin/vchk.$TAG /verif/out/bin/vchk-race.$TAG /verif/out/bin/vchk.$TAG.386
   git -C /repo worktree remove --force $W
   echo "$name:$res"
 }
